@@ -5,7 +5,9 @@ Children are numbered `0,1,2,…` (the number stands for the pid).  The kernel's
 `running | zombie st | reaped`; `os.waitpid(pid, WNOHANG)` answers `(0, 0)` for a running child, `(pid, st)`
 for a zombie (which becomes reaped) and raises `ChildProcessError` for a reaped one.
 
-  set_exit_callback(cb):  self._exit_callback = cb; initialize(); _waiting[pid] = self; _try_cleanup_process(pid)
+  set_exit_callback(cb):  if self.returncode is not None: io_loop.add_callback(cb, self.returncode); return
+                          (fix 069f67f: the exit was already reported and the child reaped — report the stored code)
+                          self._exit_callback = cb; initialize(); _waiting[pid] = self; _try_cleanup_process(pid)
   _cleanup()  (SIGCHLD):  for pid in list(_waiting.keys()): _try_cleanup_process(pid)
   _try_cleanup_process:   waitpid …; subproc = _waiting.pop(pid); io_loop.add_callback(subproc._set_returncode, status)
   _set_returncode:        decode status; proc.returncode = returncode;
@@ -35,6 +37,12 @@ inductive Mode | cb | wait (raiseError : Bool)
 inductive Fut | result (v : Int) | calledProcessError (v : Int)
   deriving DecidableEq, Repr
 
+/-- what waits on the loop (`io_loop.add_callback`) for a child -/
+inductive QI
+  | status (st : Nat)                        -- `subproc._set_returncode(status)`
+  | late (r : Nat) (m : Mode) (code : Int)   -- `callback(self.returncode)`: registration `r` made after the report
+  deriving DecidableEq, Repr
+
 /-- one `Subprocess` object -/
 structure Sub where
   proc : Proc := .running
@@ -54,7 +62,7 @@ structure St where
   subs : Nat → Sub
   waiting : List Nat                  -- keys of `Subprocess._waiting` in dict order
   initialized : Bool
-  queue : List (Nat × Nat)            -- `io_loop.add_callback(subproc._set_returncode, status)` not yet run
+  queue : List (Nat × QI)             -- `io_loop.add_callback(…)` not yet run: (child, what)
   nregs : Nat
   calls : List Call
   futs : List (Nat × Nat × Fut)       -- settled `wait_for_exit` futures: (child, registration, outcome)
@@ -78,7 +86,7 @@ def tryCleanup (s : St) (c : Nat) : St :=
   | .reaped => s                 -- ChildProcessError
   | .zombie st =>
     { setSub s c { s.subs c with proc := .reaped } with
-      waiting := s.waiting.filter (· != c), queue := s.queue ++ [(c, st)] }
+      waiting := s.waiting.filter (· != c), queue := s.queue ++ [(c, .status st)] }
 
 def cleanup (s : St) : St := s.waiting.foldl tryCleanup s
 
@@ -99,7 +107,17 @@ def setReturncode (s : St) (c st : Nat) : St :=
       { s1 with calls := s.calls ++ [{ child := c, reg := r, code := code, cleared := true }],
                 futs := s.futs ++ (match futOf m code with | some f => [(c, r, f)] | none => []) }
 
-def drainQ (s : St) : St := s.queue.foldl (fun s e => setReturncode s e.1 e.2) { s with queue := [] }
+/-- the loop runs `callback(returncode)` scheduled by a registration made after the report; `cleared` is what the
+harness observes: `_exit_callback is None` at that moment -/
+def runLate (s : St) (c r : Nat) (m : Mode) (code : Int) : St :=
+  { s with calls := s.calls ++ [{ child := c, reg := r, code := code, cleared := (s.subs c).exitCb.isNone }],
+           futs := s.futs ++ (match futOf m code with | some f => [(c, r, f)] | none => []) }
+
+def runItem (s : St) (c : Nat) : QI → St
+  | .status st => setReturncode s c st
+  | .late r m code => runLate s c r m code
+
+def drainQ (s : St) : St := s.queue.foldl (fun s e => runItem s e.1 e.2) { s with queue := [] }
 
 def step (s : St) : Op → St
   | .exit c st =>
@@ -107,6 +125,14 @@ def step (s : St) : Op → St
     | .running => setSub s c { s.subs c with proc := .zombie st }
     | _ => s
   | .reg c m =>
+    match (s.subs c).returncode with
+    | some code =>
+      -- already reported: nothing is stored, `_waiting` is not touched; the callback goes straight onto the loop.
+      -- (`initialize()` is not called on this path; `initialized` is already true in every reachable state with a
+      --  returncode — theorem `returncode_initialized` — so writing it here changes nothing and keeps the per-child
+      --  projection `view_step` free of side conditions.)
+      { s with nregs := s.nregs + 1, initialized := true, queue := s.queue ++ [(c, .late s.nregs m code)] }
+    | none =>
     let s1 := setSub s c { s.subs c with exitCb := some (s.nregs, m) }
     let s2 := { s1 with nregs := s.nregs + 1, initialized := true,
                         waiting := if s.waiting.contains c then s.waiting else s.waiting ++ [c] }
